@@ -119,6 +119,10 @@ type world struct {
 	guest       *guestRT
 	fsAtom      [2]wazero.FSConfig
 	fsAtomModel [2]*fsModel
+	// sockCfg is ONE socket configuration (ephemeral port) reused by every Instantiate+sock of the world,
+	// sockDerived a configuration derived from it; instantiating must not change either of them.
+	sockCfg, sockDerived  sock.Config
+	sockSnap, sockDerSnap string
 }
 
 var wallFn = func() (int64, int32) { return 42, 0 }
@@ -187,7 +191,12 @@ func mcOps() []op {
 		return nil
 	}})
 	ops = append(ops, op{"Instantiate+sock", func(w *world, n *node) *node {
-		ctx := sock.WithConfig(context.Background(), sock.NewConfig().WithTCPListener("127.0.0.1", 0))
+		ctx := sock.WithConfig(context.Background(), w.sockCfg) // the SAME socket configuration every time
+		w.guest.observe(ctx, n.mc)
+		return nil
+	}})
+	ops = append(ops, op{"Instantiate+sock(derived)", func(w *world, n *node) *node {
+		ctx := sock.WithConfig(context.Background(), w.sockDerived)
 		w.guest.observe(ctx, n.mc)
 		return nil
 	}})
@@ -490,6 +499,9 @@ func newWorld(kind string, g *guestRT, hostA, hostB string, cache wazero.Compila
 	w.fsAtomModel[0] = (*fsModel)(nil).with("dirA", "/")
 	w.fsAtom[1] = wazero.NewFSConfig().WithDirMount(hostA, "/a").WithReadOnlyDirMount(hostB, "/b")
 	w.fsAtomModel[1] = (*fsModel)(nil).with("dirA", "/a").with("roB", "/b")
+	w.sockCfg = sock.NewConfig().WithTCPListener("127.0.0.1", 0)
+	w.sockDerived = w.sockCfg.WithTCPListener("127.0.0.1", 0)
+	w.sockSnap, w.sockDerSnap = fw.DeepSnap(w.sockCfg, follow), fw.DeepSnap(w.sockDerived, follow)
 	return w
 }
 
@@ -544,6 +556,26 @@ func (e *explorer) apply(w *world, path []step, s step) bool {
 				map[string]any{"kind": e.kind, "path": append(append([]step{}, path...), s)})
 			e.outcomes.Inc("mutated")
 			ok = false
+		}
+	}
+	if w.sockCfg != nil {
+		for _, sc := range []struct {
+			name string
+			cfg  sock.Config
+			snap *string
+		}{{"socket configuration", w.sockCfg, &w.sockSnap}, {"derived socket configuration", w.sockDerived, &w.sockDerSnap}} {
+			if cur := fw.DeepSnap(sc.cfg, follow); cur != *sc.snap {
+				opn := s.Op
+				if k := strings.IndexByte(opn, '('); k > 0 {
+					opn = opn[:k]
+				}
+				e.run.Violation(fmt.Sprintf("%s:%s-changes-%s", e.kind, opn, strings.ReplaceAll(sc.name, " ", "-")),
+					fmt.Sprintf("%s applied to node %d changed the %s passed through the context: %s", s.Op, s.Parent, sc.name, fw.SnapDiff(*sc.snap, cur)),
+					map[string]any{"kind": e.kind, "path": append(append([]step{}, path...), s)})
+				e.outcomes.Inc("mutated")
+				*sc.snap = cur // report once per change, then continue from the new value
+				ok = false
+			}
 		}
 	}
 	if nn != nil {
